@@ -54,8 +54,10 @@ def depends_on(spec, method):
     raise KeyError(method)
 
 
+# "copy_mutate" is a macro (call all methods, copy, update the source or the copy in place, call all methods on the
+# other one): every step is an ordinary operation, the macro only makes this aliasing-sensitive order frequent
 OPS = ["call", "call", "call", "call", "assign", "assign", "copy", "copy_ro", "pickle", "step", "transition",
-       "write_ro", "call_all"]
+       "write_ro", "call_all", "copy_mutate"]
 
 
 @st.composite
@@ -83,6 +85,17 @@ def history(draw, classes=None, max_dim=3, max_ops=30, same_class_pairs=True):
         elif kind == "transition":
             op["kind"] = draw(st.sampled_from(["static", "random", "multinomial", "slice", "mom", "mom_partial"]))
             op["seed"] = draw(st.integers(0, 2**31))
+        elif kind == "copy_mutate":
+            sysk = draw(st.sampled_from(["A", "A", "B"]))
+            which = draw(st.sampled_from(["source", "copy"]))
+            var = draw(st.sampled_from(["pos", "mom", "mom"]))
+            data = draw(vec(n, -1.0, 1.0))
+            ops.append({"op": "call_all", "i": op["i"], "j": 0, "sys": sysk})
+            ops.append({"op": "copy", "i": op["i"], "j": 0, "mark": True})
+            ops.append({"op": "assign", "i": op["i"] if which == "source" else -1, "j": 0, "var": var,
+                        "style": "inplace", "data": data})
+            ops.append({"op": "call_all", "i": -1 if which == "source" else op["i"], "j": 0, "sys": sysk})
+            continue
         ops.append(op)
     return {"sys": spec, "sysB": specB, "int": draw(dyn.integrator_spec(spec["cls"], eps_lo=0.02, eps_hi=0.2)),
             "q": draw(vec(n, -1.2, 1.2)), "p": draw(vec(n, -1.5, 1.5)), "ops": ops}
